@@ -122,7 +122,13 @@ func (dic hyphDic) positions(word_ []rune) []dataOrInt {
 			pat, ok := dic.data.Patterns[string(pointedWord[i:j])]
 			if ok {
 				offset, values := pat.Start, pat.Values
-				slice := references[i+offset : i+offset+len(values)]
+				// a pattern with more digits than its letters need (hyph_id_ID: "mil12112211")
+				// reaches beyond the word: the values in excess are ignored, as Pyphen's slices do
+				end := i + offset + len(values)
+				if end > len(references) {
+					end = len(references)
+				}
+				slice := references[i+offset : end]
 				for k := range slice {
 					max := slice[k]
 					if values[k].V > slice[k].V {
